@@ -63,6 +63,8 @@ def expected (lhs : List String) : Option String :=
     some (wHex (Perm.insertRank w r p))
   | ["perm.setcnk", w, c] => do let w ← hexW? w; let c ← c.toNat?; some (wHex (Perm.setCnk w c))
   | ["perm.split", n] => do let n ← n.toNat?; some (wHex (Perm.splitDest n))
+  -- every mutator of the model is a function word → word: one publication of one word
+  | ["perm.stores", _, _, _] => some "1"
   | "perm.rearr" :: "|" :: ents => do
     let es ← parseKTs? ents
     some (wHex (Perm.ofList (rearrangeOrder es)))
